@@ -238,9 +238,30 @@ def r155(repo, ctx, index):
                       f'{name} changes the shape description but leaves {stale} (computed from the previous description) in place: later results mix two shapes', construct=f'{name}: {stale}')
 
 
+def r156(repo, ctx):
+    """T-MODEFLAG on the shape classes: a field that a method tests to pick its algorithm (scalar closed form vs. search) is
+    assigned on every path of every method that assigns it at all"""
+    from .. import modeflag as M
+    ncls = 0
+    for c in repo.module(SF).tree.body:
+        if not isinstance(c, ast.ClassDef):
+            continue
+        ncls += 1
+        tf = M.tested_fields(c)
+        for m, f, node in M.partial_setters(c, set(tf)):
+            where = sorted({x for x, _ in tf[f]})
+            ctx.violation('R15.6', SF, f'{c.name}.{m.name}', node,
+                          f'self.{f} selects the behaviour of {where} but {m.name} assigns it on some paths only: after the other paths the object keeps the flag of its '
+                          'previous configuration (e.g. a constant aspect ratio replaced by a function still uses the closed-form critical radius)',
+                          construct=f'{c.name}.{m.name}: self.{f} not assigned on every path')
+    ctx.ok('R15.6', SF, '', 0, f'{ncls} classes: no mode flag (a field tested to choose the algorithm) is assigned on some paths only of a setter', construct='mode flags')
+    ctx.floor('R15.6', ncls, 5)
+
+
 def check(repo, ctx, index, purity):
     ctx.explanation = EXPLANATION
     ctx.assumptions += ['sympy limit/simplify on the extracted closed forms', 'quadrature comparison, monotonicity and bisection tolerance are not decided']
     r151_r154(repo, ctx, purity)
     r152_r153(repo, ctx)
     r155(repo, ctx, index)
+    r156(repo, ctx)
